@@ -74,7 +74,7 @@ def m_box_into_vec(ex, f, a):
     return PyVec(list(arr.fields))
 @pattern(r'^<Box<.*> as (AsRef|Deref|DerefMut|Borrow|AsMut)(<.*>)?>::(as_ref|deref|deref_mut|borrow|as_mut)$')
 def m_box_deref(ex, f, a):
-    b = ex.deref(a[0]) if isinstance(a[0], Ref) else a[0]
+    b = ex.deref_ref(a[0])
     return unbox_ref(b)
 @pattern(r'^<Box<dyn .*> as Fn(Once|Mut)?<.*>>::call(_once|_mut)?$')
 def m_box_call(ex, f, a):
